@@ -1356,9 +1356,13 @@ add_link(struct archive_read *a, struct xar *xar, struct xar_file *file)
 	return (ARCHIVE_OK);
 }
 
+static int	_checksum_final(struct chksumwork *, const void *, size_t);
+
 static void
 _checksum_init(struct chksumwork *sumwrk, int sum_alg)
 {
+	/* Release the context of an entry that was not read to its end. */
+	_checksum_final(sumwrk, NULL, 0);
 	sumwrk->alg = sum_alg;
 	switch (sum_alg) {
 	case CKSUM_NONE:
@@ -1410,6 +1414,7 @@ _checksum_final(struct chksumwork *sumwrk, const void *val, size_t len)
 			r = ARCHIVE_FAILED;
 		break;
 	}
+	sumwrk->alg = CKSUM_NONE;
 	return (r);
 }
 
